@@ -231,6 +231,8 @@ pub fn run(out: &str, polls: usize, schedule: Option<String>) {
         (1, polls, vec![vec![7; polls]], "rejected:nospace"),                                   // one task, same waker
         (2, 1, vec![vec![5], vec![6]], "accepted"),
     ];
+    // the drain loop of `Shutdown` answers with ShuttingDown: one task whose waker changes between its polls
+    plans.push((1, polls.min(2), vec![(0..polls.min(2)).map(|j| 5 + j % 2 * 3).collect()], "shuttingdown"));
     if polls >= 3 { plans.push((2, 2, vec![vec![5, 8], vec![6, 6]], "shuttingdown")); }
     for (pollers, polls_each, wakers, status_text) in plans {
         sink.both(&format!("# case ack pollers={} polls={} status={}", pollers, polls_each, status_text));
